@@ -55,6 +55,13 @@ def impl(line):
     return impl_chunk_op(line)
 
 
+def decoys(line):
+    """the same chunk hierarchy built first by a caller that spells the sequence types as plain strings (the library's
+    Parent cache then holds string-typed levels for the real line: whether a view is chunk-relative must not depend on
+    the spelling)"""
+    return ["@strtypes " + line]
+
+
 # ------------------------------------------------------------------------------------------------ helpers
 
 def letters(rng, n):
